@@ -80,14 +80,17 @@ fn rdh_fields_equal(r: &RdhCru, m: &Rdh) -> Option<String> {
     None
 }
 
-fn gen_case_stream(t0: &mut Tape, max_packets: usize) -> (Vec<u8>, Vec<Walked>, Filter, Vec<String>) {
+fn gen_case_stream(t0: &mut Tape, max_packets: usize, allow_near_max: bool) -> (Vec<u8>, Vec<Walked>, Filter, Vec<String>) {
     let mut ot = t0.fork(16);
+    // one case in 40: more than 100 packets that all carry close to the largest payload (full batches of the reader)
+    let near_max = allow_near_max && ot.chance(1, 40);
     let (s, mut labels) = gen::gen_frame_stream(
         t0,
         &FrameOpts {
             max_packets,
             word_payload: false,
-            max_payload: if ot.chance(1, 8) { 10_000 } else { 600 },
+            max_payload: if near_max || ot.chance(1, 8) { 10_000 } else { 600 },
+            near_max,
             ..Default::default()
         },
     );
@@ -102,7 +105,7 @@ fn gen_case_stream(t0: &mut Tape, max_packets: usize) -> (Vec<u8>, Vec<Walked>, 
 
 fn inproc_case(t0: &mut Tape, w: &Worker) -> CaseResult {
     let mut ot = t0.fork(8);
-    let (bytes, walked, filter, mut labels) = gen_case_stream(t0, 320);
+    let (bytes, walked, filter, mut labels) = gen_case_stream(t0, 320, false);
     let skip = ot.chance(1, 2);
     let pipe = ot.chance(1, 2);
     labels.push(if skip { "payload:skipped".into() } else { "payload:loaded".into() });
@@ -199,7 +202,7 @@ pub fn parse_rdh_view(stdout: &str) -> Vec<(u64, String)> {
 
 fn cli_case(t0: &mut Tape, w: &Worker) -> CaseResult {
     let mut ot = t0.fork(8);
-    let (bytes, walked, filter, mut labels) = gen_case_stream(t0, 320);
+    let (bytes, walked, filter, mut labels) = gen_case_stream(t0, 320, true);
     let stdin = ot.chance(1, 2);
     labels.push(if stdin { "src:stdin".into() } else { "src:file".into() });
     let mut case = CliCase::new(w, bytes.clone());
@@ -266,6 +269,8 @@ fn cli_case(t0: &mut Tape, w: &Worker) -> CaseResult {
 /// payload loaded path through the CLI: data view prints every word with offset and bytes
 fn cli_payload_case(t0: &mut Tape, w: &Worker) -> CaseResult {
     let mut ot = t0.fork(8);
+    // one case in 40: more than 100 packets that all carry more than 8 KiB (full batches of the reader, payloads loaded)
+    let near_max = ot.chance(1, 40);
     let (mut s, mut labels) = gen::gen_frame_stream(
         t0,
         &FrameOpts {
@@ -273,6 +278,7 @@ fn cli_payload_case(t0: &mut Tape, w: &Worker) -> CaseResult {
             word_payload: true,
             valid_layers: true,
             its_first: true,
+            near_max,
             ..Default::default()
         },
     );
